@@ -1,5 +1,6 @@
 import Orca.Gen.RefTables
 import Orca.Lemmas.Ops
+import Orca.Lemmas.Preserve
 /-!
 # C08 — memory references stay bound to the same memory across edits
 
@@ -49,5 +50,16 @@ theorem c08_added_memory_ids (s : St) (uid : Nat) :
     (addImportMem s uid).2 = Ret.id2 s.m.items.length s.imports.length
     ∧ (addLocalMem s uid).2 = Ret.id s.m.items.length := by
   exact ⟨(addImportMem_spec s uid).1, rfl⟩
+
+/-- `c08_memory_refs` after **any** history of edits on a parsed module (the state invariant is inductive:
+    `stInv_step`, Lemmas/Preserve.lean) -/
+theorem c08_memory_refs_after_any_history (s0 : St) (h0 : StInv s0) (ops : List Op) (hn : NoEncode ops) :
+    let s := (run s0 ops).1
+    (∃ s' F G M res st, encode s = (s', Ret.encoded F G M res st)
+        ∧ (∀ r' ∈ res, r'.sp = Sp.M → ∃ r ∈ allRefs s, r'.site = r.site ∧ r.sp = Sp.M
+            ∧ ∃ u, PointsTo s r u ∧ M[r'.idx]? = some u))
+    ∨ (∃ s' why, encode s = (s', Ret.panic why) ∧ ∃ r ∈ allRefs s, Dangling s r) :=
+  let h := spaceInv_after s0 h0 ops hn
+  c08_memory_refs _ h.1 h.2.1 h.2.2
 
 end Orca.Edit
